@@ -391,11 +391,15 @@ class ShortTimeFourierTransformFrameComputer(LinearFilterBankFrameComputer):
         assert len(frame) == self._frame_length
         assert len(coeffs) == self.num_coeffs
         if self.includes_energy:
-            coeffs[0] = np.inner(frame, frame) / self._frame_length
+            # in float64 until the end, like the filter coefficients: a float16 frame
+            # overflows its own type long before its mean square does the result's
+            frame64 = frame.astype(np.float64, copy=False)
+            energy = np.inner(frame64, frame64) / self._frame_length
             if not self._power:
-                coeffs[0] **= 0.5
+                energy **= 0.5
             if self._log:
-                coeffs[0] = np.log(max(coeffs[0], config.LOG_FLOOR_VALUE))
+                energy = np.log(max(energy, config.LOG_FLOOR_VALUE))
+            coeffs[0] = energy
             coeffs = coeffs[1:]
         if config.USE_FFTPACK:
             from scipy import fftpack
